@@ -1340,7 +1340,73 @@ func entryTypeKnown(p *eng.Prog, fn *ssa.Function, blk *ssa.BasicBlock, base ssa
 			}
 		}
 	}
+	if sites == 0 {
+		// no direct call: the function may be an entry of a table keyed by the entry type (loaders[entry.Type])
+		return dispatchedByEntryType(p, fn)
+	}
 	return sites > 0 && all
+}
+
+// dispatchedByEntryType: fn is used only as a value stored under a constant key in a map that is looked up with the
+// Type field of a cross-reference entry.
+func dispatchedByEntryType(p *eng.Prog, fn *ssa.Function) bool {
+	found, ok := false, true
+	for _, g := range p.ModuleFuncs() {
+		if g.Pkg != fn.Pkg || g.Blocks == nil {
+			continue
+		}
+		eng.Instrs(g, true, func(in ssa.Instruction) {
+			var v ssa.Value
+			switch x := in.(type) {
+			case *ssa.MakeClosure:
+				if w, isF := x.Fn.(*ssa.Function); isF && w.Synthetic != "" && strings.HasPrefix(w.Name(), fn.Name()+"$") {
+					v = x
+				}
+			}
+			if v == nil {
+				return
+			}
+			// through a conversion to a named function type, into a map under a constant key
+			vals := []ssa.Value{v}
+			for i := 0; i < len(vals); i++ {
+				for _, r := range *vals[i].Referrers() {
+					switch y := r.(type) {
+					case *ssa.ChangeType:
+						vals = append(vals, y)
+					case *ssa.MapUpdate:
+						if y.Value != vals[i] {
+							continue
+						}
+						if _, isC := eng.ConstInt(y.Key); !isC {
+							ok = false
+							continue
+						}
+						// the map is looked up with entry.Type
+						typed := false
+						for _, mr := range *y.Map.Referrers() {
+							if lk, isL := mr.(*ssa.Lookup); isL {
+								key := lk.Index
+								if ct, isCT := key.(*ssa.ChangeType); isCT {
+									key = ct.X
+								}
+								if fr, okF := eng.LoadOfField(key); okF && fr.Field == "Type" && fr.Struct == "core.XRefEntry" {
+									typed = true
+								}
+							}
+						}
+						if typed {
+							found = true
+						} else {
+							ok = false
+						}
+					case ssa.CallInstruction:
+						ok = false // called some other way
+					}
+				}
+			}
+		})
+	}
+	return found && ok
 }
 
 // R4.13 [C04]
@@ -3330,4 +3396,208 @@ func ruleListStateEndsWithList(c *eng.Ctx) {
 	if n == 0 {
 		c.Ok(R, "htmldoc#inList", token.NoPos, "not evaluated: the walks do not clear an inList flag")
 	}
+}
+
+// ---------------------------------------------------------------------------------------------------------------
+// R16.16 the row recorded as the start of a vertical merge survives until a continuation cell asks for it.
+
+// condKey gives a branch condition that is (the negation of) a load of a struct field a name and a polarity.
+func condKey(v ssa.Value) (string, bool, bool) {
+	pol := true
+	for i := 0; i < 4; i++ {
+		if u, ok := v.(*ssa.UnOp); ok && u.Op == token.NOT {
+			pol = !pol
+			v = u.X
+			continue
+		}
+		break
+	}
+	fr, ok := eng.LoadOfField(v)
+	if !ok {
+		return "", false, false
+	}
+	return fr.Struct + "." + fr.Field + "@" + fr.Base.Name(), pol, true
+}
+
+// storeReachesRead: some feasible path from the store to a read of the same local table does not pass another store
+// to the same element (same index value) first. Branches on a field that guarded the store are followed consistently.
+func storeReachesRead(st *ssa.Store) bool {
+	ia, ok := st.Addr.(*ssa.IndexAddr)
+	if !ok {
+		return true
+	}
+	table, idx := ia.X, ia.Index
+	fn := st.Parent()
+	// what is known where the store stands
+	known := map[string]bool{}
+	blk := st.Block()
+	for d := blk.Idom(); d != nil; d = d.Idom() {
+		iff, ok := d.Instrs[len(d.Instrs)-1].(*ssa.If)
+		if !ok {
+			continue
+		}
+		key, pol, ok := condKey(iff.Cond)
+		if !ok {
+			continue
+		}
+		r0 := eng.ReachableBlocks([]*ssa.BasicBlock{d.Succs[0]}, func(b *ssa.BasicBlock) bool { return b == d })
+		r1 := eng.ReachableBlocks([]*ssa.BasicBlock{d.Succs[1]}, func(b *ssa.BasicBlock) bool { return b == d })
+		if r0[blk] && !r1[blk] {
+			known[key] = pol
+		} else if r1[blk] && !r0[blk] {
+			known[key] = !pol
+		}
+	}
+	_ = fn
+	sameTable := func(v ssa.Value) bool { return v == table }
+	type state struct {
+		b     *ssa.BasicBlock
+		start int
+		fresh bool // still in the iteration of the store
+	}
+	seen := map[*ssa.BasicBlock]bool{}
+	found := false
+	var dfs func(s state)
+	dfs = func(s state) {
+		if found {
+			return
+		}
+		for i := s.start; i < len(s.b.Instrs); i++ {
+			switch x := s.b.Instrs[i].(type) {
+			case *ssa.UnOp:
+				if a, ok := x.X.(*ssa.IndexAddr); ok && x.Op == token.MUL && sameTable(a.X) {
+					found = true
+					return
+				}
+			case *ssa.Store:
+				if a, ok := x.Addr.(*ssa.IndexAddr); ok && sameTable(a.X) && s.fresh && a.Index == idx && x != st {
+					return // overwritten before anyone looked
+				}
+			case *ssa.If:
+				if s.fresh {
+					if key, pol, ok := condKey(x.Cond); ok {
+						if v, has := known[key]; has {
+							t := s.b.Succs[1]
+							if v == pol {
+								t = s.b.Succs[0]
+							}
+							if !seen[t] {
+								seen[t] = true
+								dfs(state{t, 0, s.fresh && !t.Dominates(blk)})
+							}
+							return
+						}
+					}
+				}
+			}
+		}
+		for _, t := range s.b.Succs {
+			if seen[t] {
+				continue
+			}
+			seen[t] = true
+			dfs(state{t, 0, s.fresh && !t.Dominates(blk)})
+		}
+	}
+	start := 0
+	for i, in := range blk.Instrs {
+		if in == ssa.Instruction(st) {
+			start = i + 1
+		}
+	}
+	dfs(state{blk, start, true})
+	return found
+}
+
+// R16.16 [C16]
+func ruleMergeStartSurvives(c *eng.Ctx) {
+	const R = "R16.16-MERGE-START-SURVIVES"
+	c.Rule(R, "in docx.(*TableParser).processVerticalMerges every row number written into the per-column table of merge starts can reach a read of that table (the continuation cell of a later row) without being overwritten first in the same iteration; branches on the cell's continuation flag are followed the way the flag was found where the number was written. A start that is recorded and reset in one breath is never found, and RowSpan stays 1 for every vertically merged cell", 1, 0)
+	fn := c.P.Func("docx.(*TableParser).processVerticalMerges")
+	if fn == nil {
+		c.Undec(R, "docx.(*TableParser).processVerticalMerges", token.NoPos, "anchor not found")
+		return
+	}
+	n := 0
+	eng.Instrs(fn, false, func(in ssa.Instruction) {
+		st, ok := in.(*ssa.Store)
+		if !ok {
+			return
+		}
+		ia, ok := st.Addr.(*ssa.IndexAddr)
+		if !ok {
+			return
+		}
+		if _, isMk := ia.X.(*ssa.MakeSlice); !isMk {
+			return
+		}
+		if _, isC := eng.ConstInt(st.Val); isC {
+			return // the "no merge open" marker
+		}
+		n++
+		c.Check(storeReachesRead(st), R, fmt.Sprintf("%s#start@%s", eng.FuncName(fn), c.P.Pos(st.Pos())), st.Pos(), "the recorded start can reach a later read", "the row recorded here as the start of a vertical merge is overwritten in the same iteration on every feasible path before anything reads it: no continuation cell finds its start and the merged cell keeps RowSpan 1")
+	})
+	if n == 0 {
+		c.Ok(R, eng.FuncName(fn)+"#start", fn.Pos(), "not evaluated: no row number is recorded in a local per-column table")
+	}
+}
+
+// ---------------------------------------------------------------------------------------------------------------
+// R16.17 both spellings of a vertical-merge continuation are recognised.
+
+// R16.17 [C16]
+func ruleVMergeSpellings(c *eng.Ctx) {
+	const R = "R16.17-VMERGE-SPELLINGS"
+	c.Rule(R, "where docx.(*TableParser).parseCell decides that a cell continues a vertical merge by comparing w:vMerge's val with the empty string it also compares it with \"continue\": the attribute has two values, restart and continue, and continue is what an absent attribute means, so both spellings name the same cell kind (ISO/IEC 29500-1 17.4.85)", 1, 0)
+	fn := c.P.Func("docx.(*TableParser).parseCell")
+	if fn == nil {
+		c.Undec(R, "docx.(*TableParser).parseCell", token.NoPos, "anchor not found")
+		return
+	}
+	consts := map[string]bool{}
+	n := 0
+	for _, h := range eng.Cluster(fn, 1) {
+		if h.Pkg != fn.Pkg {
+			continue
+		}
+		eng.Instrs(h, true, func(in ssa.Instruction) {
+			b, ok := in.(*ssa.BinOp)
+			if !ok || (b.Op != token.EQL && b.Op != token.NEQ) {
+				return
+			}
+			for _, pair := range [][2]ssa.Value{{b.X, b.Y}, {b.Y, b.X}} {
+				s, isC := eng.ConstString(pair[1])
+				if !isC {
+					continue
+				}
+				for w := range eng.Slice(pair[0], nil) {
+					var st *types.Struct
+					var nm string
+					fi := -1
+					switch x := w.(type) {
+					case *ssa.FieldAddr:
+						if pt, ok := x.X.Type().Underlying().(*types.Pointer); ok {
+							st, _ = pt.Elem().Underlying().(*types.Struct)
+							nm = eng.TypeName(pt.Elem())
+							fi = x.Field
+						}
+					case *ssa.Field:
+						st, _ = x.X.Type().Underlying().(*types.Struct)
+						nm = eng.TypeName(x.X.Type())
+						fi = x.Field
+					}
+					if st != nil && strings.HasSuffix(nm, "vMergeXML") && st.Field(fi).Name() == "Val" {
+						consts[s] = true
+						n++
+					}
+				}
+			}
+		})
+	}
+	if n == 0 {
+		c.Ok(R, eng.FuncName(fn)+"#vMerge", fn.Pos(), "not evaluated: w:vMerge's val is not compared with constants here")
+		return
+	}
+	okS := !consts[""] || consts["continue"]
+	c.Check(okS, R, eng.FuncName(fn)+"#vMerge", fn.Pos(), "both spellings of continue are recognised", "w:vMerge's val is compared with \"\" but not with \"continue\": a continuation cell written with the explicit value is taken for a cell of its own and ends the merge above it")
 }
